@@ -309,7 +309,7 @@ func c12FlagCalls(fn *ssa.Function, f FieldID, name string) []*ssa.Call {
 	var out []*ssa.Call
 	allInstrs(fn, func(in ssa.Instruction) {
 		call, ok := in.(*ssa.Call)
-		if !ok || !callIs(call, "sync/atomic", "Bool", name) || len(call.Call.Args) == 0 {
+		if !ok || !c12IsFlagMethod(call, name) || len(call.Call.Args) == 0 {
 			return
 		}
 		if id, _, ok := fieldOfValue(call.Call.Args[0]); ok && id == f {
